@@ -218,6 +218,26 @@ Theorem C05_maxretry_fails_fire : forall w w' e wr,
 Proof. exact maxretry_fails_fire. Qed.
 Print Assumptions C05_maxretry_fails_fire.
 
+(* the decision of a Running job's sync (running.go 66-112) is EXACTLY the stated verdict on the
+   counters and the per-task table it is handed: Completed / Failed / Pending / stay Running, for
+   every spec (task minimums, job minAvailable below / equal to / above their sum, minSuccess set or
+   not) and every status *)
+Theorem C05_running_sync_verdict : forall sp s,
+  running_sync sp s = match running_verdict sp (st_cnt s) (st_tsc s) with Some p => set_phase s p | None => s end.
+Proof. exact running_sync_verdict. Qed.
+Print Assumptions C05_running_sync_verdict.
+
+(* Completed is written only if minSuccess is reached or, whenever job.minAvailable >= the sum of the
+   task minimums (equality included: that is what the admission webhook defaults to), every task
+   that has a minAvailable reached it *)
+Theorem C05_running_completed_only_if : forall sp s,
+  st_phase s = PhRunning -> st_phase (running_sync sp s) = PhCompleted ->
+  minsucc_reached sp (st_cnt s) = true \/
+  (total_task_min sp <= s_min sp ->
+   forall t m c, In t (s_tasks sp) -> t_min t = Some m -> tsc_get (t_name t) (st_tsc s) = Some c -> m <= cS c).
+Proof. exact running_completed_only_if. Qed.
+Print Assumptions C05_running_completed_only_if.
+
 (* non-vacuity *)
 Example C05_fixed_on_pgpending_witness :
   exists w', step_req pgpending_world sync_req [] = (w', false, true) /\
@@ -276,3 +296,10 @@ Example C05_nonvacuous_counters_partition :
   (exists w', step_req f2_world sync_req [] = (w', false, true)) /\
   (exists w', step_req pgpending_world sync_req [] = (w', false, true)).
 Proof. exact counters_partition_nonvacuous. Qed.
+
+Example C05_nonvacuous_running_boundary :
+  let sp := mkSpec [mkTask 1 2 (Some 1) [] None; mkTask 2 2 (Some 1) [] None] 2 None 3 [] in
+  let s := mkStatus PhRunning 0 0 2 (mkC 0 0 2 2 0) 0 [(1%positive, mkC 0 0 2 0 0); (2%positive, mkC 0 0 0 2 0)] false false in
+  total_task_min sp = s_min sp /\ st_phase (running_sync sp s) = PhFailed /\
+  st_phase (running_sync (mkSpec (s_tasks sp) 1 None 3 []) s) = PhCompleted.
+Proof. exact running_boundary_example. Qed.
